@@ -1,10 +1,14 @@
-#!/bin/sh
-# Run every claimed quick check on /repo's current tree; non-zero exit if any check does not exit 0.
-cd /verif || exit 2
-rc=0
+#!/bin/bash
+# Run every claimed quick check against /repo as it is (rewrites evidence/*.json); prints the summary line of each
+# and, loudly, anything that would count as an alarm on the unchanged tree.
+cd "$(dirname "$0")/.."
+bad=0
 for id in C01 C02 C03 C04 C05 C06 C07 C08 C09 C10 C11 C12 C13 C14 C15 C16 C17 C18 C19; do
-  out=$(/venv/bin/python bin/check.py $id ${1:+--tier $1} 2>&1); e=$?
-  echo "$out" | grep -E "^(C[0-9]+:|VIOLATION|ANALYSIS-ERROR)" | cut -c1-220
-  [ $e -ne 0 ] && rc=1
+  out=$(/venv/bin/python bin/check.py $id --tier quick 2>&1); rc=$?
+  echo "$out" | grep "^$id:" | tail -1
+  if [ $rc -ne 0 ] || echo "$out" | grep -q "^VIOLATION\|ANALYSIS-ERROR"; then
+    bad=1; echo "!!! ALARM on the unchanged tree: $id (exit $rc)"; echo "$out" | grep -v "^KNOWN-FINDING" | tail -4 | cut -c1-300
+  fi
 done
-exit $rc
+[ $bad -eq 0 ] && echo "run_all: no alarm on the unchanged tree"
+exit $bad
